@@ -37,6 +37,16 @@ type scase struct {
 	CLI   bool     `json:"cli"`
 	// Extra: further script files given to the same invocation of the binary
 	Extra [][]string `json:"extra,omitempty"`
+	// Expect: verdict and first failing line stated by hand (scripts whose
+	// meaning rests on something the reference interpreter does not model, such
+	// as how a program name is looked up along PATH); no prediction is made
+	Expect *expectation `json:"expect,omitempty"`
+}
+
+type expectation struct {
+	Verdict  string `json:"verdict"`
+	FailLine int    `json:"fail_line,omitempty"`
+	Why      string `json:"why"`
 }
 
 func (c scase) String() string {
@@ -298,6 +308,22 @@ func check(root string, c scase, st *stats) (string, string) {
 		}
 		return "", ""
 	}
+	if c.Expect != nil {
+		if st != nil {
+			atomic.AddInt64(&st.scripts, 1)
+		}
+		o := run(root, c)
+		if o.Verdict == string(tsh.Panicked) {
+			return "panic", "the run panicked: " + o.Panic
+		}
+		if o.Verdict != c.Expect.Verdict {
+			return "verdict-" + c.Expect.Verdict + "-reported-" + o.Verdict, fmt.Sprintf("reported %s, expected %s (%s); log:\n%s", o.Verdict, c.Expect.Verdict, c.Expect.Why, o.Log)
+		}
+		if c.Expect.Verdict == "fail" && (len(o.FailLines) == 0 || o.FailLines[0] != c.Expect.FailLine) {
+			return "first-offending-line", fmt.Sprintf("the log names line(s) %v as failing, the first offending line is %d (%s); log:\n%s", o.FailLines, c.Expect.FailLine, c.Expect.Why, o.Log)
+		}
+		return "", ""
+	}
 	pred := predict(c.Cfg, archiveFiles, c.Lines)
 	if st != nil {
 		atomic.AddInt64(&st.scripts, 1)
@@ -550,6 +576,30 @@ func realMain() {
 	}
 	addAll(def, cliAlpha, ncli, true)
 	addAll(coe, cliAlpha, 2, true)
+	// program lookup along PATH: a directory or a non-executable file that has
+	// the program's name is not the program
+	pathCases := []struct {
+		lines []string
+		exp   expectation
+	}{
+		{[]string{"mkdir shadow/hexit", "env PATH=$WORK/shadow${:}$PATH", "exec hexit 0"}, expectation{Verdict: "pass", Why: "a directory named like the program earlier on PATH is skipped"}},
+		{[]string{"mkdir shadow/hexit", "env PATH=$WORK/shadow${:}$PATH", "! exec hexit 0"}, expectation{Verdict: "fail", FailLine: 3, Why: "the real hexit further along PATH succeeds, so the negated exec fails"}},
+		{[]string{"mkdir shadow/hexit", "env PATH=$WORK/shadow${:}$PATH", "exec hexit 3"}, expectation{Verdict: "fail", FailLine: 3, Why: "the real hexit exits 3"}},
+		{[]string{"mkdir shadow/hexit", "env PATH=$WORK/shadow${:}$PATH", "! exec hexit 3"}, expectation{Verdict: "pass", Why: "the real hexit exits 3"}},
+		{[]string{"mkdir shadow/nosuchprog", "env PATH=$WORK/shadow${:}$PATH", "[exec:nosuchprog] exists nofile"}, expectation{Verdict: "pass", Why: "a directory is not a program: the condition is false and the line is skipped"}},
+		{[]string{"mkdir shadow/nosuchprog", "env PATH=$WORK/shadow${:}$PATH", "[!exec:nosuchprog] exists nofile"}, expectation{Verdict: "fail", FailLine: 3, Why: "a directory is not a program: the negated condition holds and the line runs"}},
+		{[]string{"mkdir shadow", "cp f shadow/hexit", "chmod 644 shadow/hexit", "env PATH=$WORK/shadow${:}$PATH", "exec hexit 0"}, expectation{Verdict: "pass", Why: "a non-executable file named like the program is skipped"}},
+		{[]string{"mkdir shadow", "cp f shadow/hexit", "chmod 644 shadow/hexit", "env PATH=$WORK/shadow${:}$PATH", "exec hexit 3"}, expectation{Verdict: "fail", FailLine: 5, Why: "the real hexit exits 3"}},
+		{[]string{"mkdir shadow", "cp f shadow/nosuchprog", "chmod 644 shadow/nosuchprog", "env PATH=$WORK/shadow${:}$PATH", "[exec:nosuchprog] exists nofile"}, expectation{Verdict: "pass", Why: "a non-executable file is not a program"}},
+		{[]string{"mkdir shadow/hexit", "env PATH=$WORK/shadow", "exec hexit 0"}, expectation{Verdict: "fail", FailLine: 3, Why: "only a directory of that name is on PATH: the program is not found"}},
+		{[]string{"env PATH=$WORK/nodir${:}${:}$PATH", "exec hexit 0", "[exec:hexit] exists nofile"}, expectation{Verdict: "fail", FailLine: 3, Why: "missing and empty PATH elements are passed over; hexit is found"}},
+	}
+	for _, pc := range pathCases {
+		for _, cfg := range []config{def, coe} {
+			e := pc.exp
+			cases = append(cases, scase{Cfg: cfg, Lines: pc.lines, Expect: &e})
+		}
+	}
 	// several script files in one invocation (the failure flag is shared)
 	multi := [][]string{{"exists f"}, {"exists nofile"}, {"skip"}, {"stop"}, {"exec hexit 3"}, {"exists f", "skip", "exists nofile"}, {"! exec hexit 0", "skip"}}
 	for _, cfg := range []config{def, coe} {
